@@ -215,3 +215,47 @@ Proof.
   destruct R1_operator_ok as (H1 & H2 & H3 & H4). repeat split; auto; try apply H1.
   all: try (cbn; lra).
 Qed.
+
+(** ** Tie to the source.  The left-hand sides (modules SVGen.C17_EstPdhg, C17_EstPadmm,
+    C17_EstNlpadmm) are regenerated from scico/optimize/_primaldual.py and _padmm.py by
+    tools/py2coq.py on every run; the right-hand sides are the estimator models the theorems
+    above are about, applied to the value the operator_norm oracle returns. *)
+From SV Require Import C11.Overload C17.Gen.
+From SVGen Require C17_EstPdhg C17_EstPadmm C17_EstNlpadmm.
+
+(** PDHG.estimate_parameters (x given or defaulted, factor None or a number, linear or non-linear C) *)
+Theorem C17_gen_pdhg_estimate :
+  forall (K : Type) (NK : Num K) (SK : Sqrt K) (X : Type) (VX : VecOps K X) (Z : Type) (Key : Type)
+         (ON : OpNormOracle (Op X Z) K Key) (JO : JacOracle (Op X Z) X)
+         (C : Op X Z) (x : X) (ratio : K) (factor : option K) (maxiter : nat) (key : option Key),
+    C17_EstPdhg.estimate_parameters_gen__none C ratio factor maxiter key
+      = pdhg_est ksqrt factor ratio (opnorm_ (pdhg_J C None) maxiter key) /\
+    C17_EstPdhg.estimate_parameters_gen__x C x ratio factor maxiter key
+      = pdhg_est ksqrt factor ratio (opnorm_ (pdhg_J C (Some x)) maxiter key).
+Proof. intros. apply pdhg_estimate_gen_is_model. Qed.
+Print Assumptions C17_gen_pdhg_estimate.
+
+(** ProximalADMM.estimate_parameters (B given, or the default -I) *)
+Theorem C17_gen_padmm_estimate :
+  forall (K : Type) (NK : Num K) (X : Type) (Z : Type) (VZ : VecOps K Z) (Key : Type)
+         (ONA : OpNormOracle (Op X Z) K Key) (ONB : OpNormOracle (Op Z Z) K Key)
+         (A : Op X Z) (B : Op Z Z) (factor : option K) (maxiter : nat) (key : option Key),
+    C17_EstPadmm.estimate_parameters_gen__B A B factor maxiter key
+      = padmm_est factor (opnorm_ A maxiter key) (opnorm_ B maxiter key) /\
+    C17_EstPadmm.estimate_parameters_gen__none A factor maxiter key
+      = padmm_est factor (opnorm_ A maxiter key) (opnorm_ (hneg (@op_identity Z)) maxiter key).
+Proof. intros. apply padmm_estimate_gen_is_model. Qed.
+Print Assumptions C17_gen_padmm_estimate.
+
+(** NonLinearPADMM.estimate_parameters (all four patterns of supplied / defaulted x, z) *)
+Theorem C17_gen_nlpadmm_estimate :
+  forall (K : Type) (NK : Num K) (X : Type) (VX : VecOps K X) (Z : Type) (VZ : VecOps K Z) (Key : Type)
+         (U : Type) (ONA : OpNormOracle (Op X U) K Key) (ONB : OpNormOracle (Op Z U) K Key)
+         (J0 : Jac0Oracle (Fun2 X Z U) X Z (Op X U)) (J1 : Jac1Oracle (Fun2 X Z U) X Z (Op Z U))
+         (H : Fun2 X Z U) (x : X) (z : Z) (factor : option K) (maxiter : nat) (key : option Key),
+    C17_EstNlpadmm.estimate_parameters_gen__none H factor maxiter key = nl_est H None None factor maxiter key /\
+    C17_EstNlpadmm.estimate_parameters_gen__x H x factor maxiter key = nl_est H (Some x) None factor maxiter key /\
+    C17_EstNlpadmm.estimate_parameters_gen__z H z factor maxiter key = nl_est H None (Some z) factor maxiter key /\
+    C17_EstNlpadmm.estimate_parameters_gen__x_z H x z factor maxiter key = nl_est H (Some x) (Some z) factor maxiter key.
+Proof. intros. apply nlpadmm_estimate_gen_is_model. Qed.
+Print Assumptions C17_gen_nlpadmm_estimate.
